@@ -21,6 +21,53 @@ func init() {
 }
 
 func c20(c *Ctx) {
+	{
+		// an event subscriber's channel is closed exactly once: only while the subscriber is still registered, and it is unregistered in the same step
+		p := c.P
+		ue := "litefs.(*Store).unsubscribeEvents"
+		closeCh := func(in ssa.Instruction) bool {
+			call, ok := in.(*ssa.Call)
+			if !ok {
+				return false
+			}
+			bi, ok := call.Call.Value.(*ssa.Builtin)
+			return ok && bi.Name() == "close" && len(call.Call.Args) == 1 && strings.HasSuffix(p.Render(call.Call.Args[0]), ".ch")
+		}
+		c.Guarded("events/close-once/registered", ue, closeCh, gs(GP("p0.eventSubscribers[p1]#1", true)), 1, "unsubscribeEvents closes the subscriber's channel only while it is still in Store.eventSubscribers", "the channel is closed both when a slow subscriber overflows and when its request ends: a second close panics inside the /events handler")
+		c.Before("events/close-once/unregistered", ue, closeCh, p.Writes("litefs.Store.eventSubscribers[]"), 1, "... and removes it from the set before closing", "")
+		var sites []string
+		for _, f := range p.SrcFuncs() {
+			if !c.inScope(f, []string{"litefs", "http"}) {
+				continue
+			}
+			for _, in := range Instrs(f, closeCh) {
+				if strings.Contains(c.argR(in, 0), "ch") && typeStr(deref(callVals(in)[0].Type())) != "" {
+					if fa, ok := stripValue(callVals(in)[0]).(*ssa.UnOp); ok {
+						if a, ok := fa.X.(*ssa.FieldAddr); ok && typeStr(deref(a.X.Type())) == "litefs.EventSubscriber" {
+							sites = append(sites, p.FuncName(topFunc(f)))
+						}
+					}
+				}
+			}
+		}
+		c.ExpectAll("events/close-once/only-site", sites, pat(ue), 1, "EventSubscriber.ch is closed nowhere else", "")
+	}
+	c.lockPgnoGuards("nil/lockpgno")
+	{
+		// database names taken from requests are plain file names
+		p := c.P
+		valid := GP("litefs.isValidDBName(p1)", true)
+		for _, f := range []string{"litefs.(*Store).CreateDB", "litefs.(*Store).CreateDBIfNotExists"} {
+			short := f[len("litefs.(*Store)."):]
+			c.Guarded("names/"+short+"/validated-first", f, Any(p.PlainCalls("litefs.(*Store).DBPath"), p.CallsRe(`litefs\.OS\.(MkdirAll|WriteFile|OpenFile)`), p.Calls("sync.(*Mutex).Lock")), gs(valid), 2,
+				short+" touches the file system (and takes the store mutex) only after isValidDBName(name) answered true", "a name such as '../../evil' or './x' is joined to the data directory: a directory outside it is created, or an existing database is truncated and the store mutex dead-locks")
+		}
+		c.OnlyIn("names/dbpath-callers", p.Calls("litefs.(*Store).DBPath"), []string{pat("litefs.(*Store).CreateDB"), pat("litefs.(*Store).CreateDBIfNotExists"), pat("litefs.(*Store).openDatabase")}, 3, "a database path is derived from a name only by the two validating creators and by openDatabase (names read from the directory listing)", "")
+		c.Expect("names/validator-def", strings.Join(c.returnsOf("litefs.isValidDBName"), ";"), pat("phi((p0 == path/filepath.Base(p0))|false)"), "isValidDBName(name): name equals its own base name ...", "")
+		for i, lit := range []string{`""`, `"."`, `".."`} {
+			c.Guarded(fmt.Sprintf("names/validator-rejects/%d", i+1), "litefs.isValidDBName", p.PlainCalls("path/filepath.Base"), gs(G(pat("("+lit+" == p0)")+"|"+pat("(p0 == "+lit+")"), false)), 1, "... and is not "+lit, "")
+		}
+	}
 	c.forwardedExtends("forwarded")
 	c.NoDiscardedErrors("errors/none-dropped", []string{"http"}, discardHTTP, 10)
 	p := c.P
